@@ -44,12 +44,16 @@ let rec parse_tt (toks: Stdlib.String.t list) : tt list * Stdlib.String.t list =
       let d = match g.[1] with '(' -> Paren | '[' -> Bracket | _ -> Brace in
       (TG (d, inner) :: l, r)
   | t :: _ -> failwith ("token " ^ t)
+let show_atok = function AId x -> esc (ostr x) | ALit (LStr x) -> esc (ostr x) | ALit (LNat n) -> string_of_int (int_of_nat n)
+let show_attrs (l: atok list list) : Stdlib.String.t = String.concat "" (List.map (fun a -> "( " ^ String.concat "" (List.map (fun t -> show_atok t ^ " ") a) ^ ") ") l)
 let rec show_ty (Ty (cat, wraps, rt, ao)) : Stdlib.String.t =
   let c = match cat with
     | CNever -> "Never" | CUnNamed -> "Unnamed"
     | CNamed path -> "Named:" ^ String.concat "::" (List.map ostr path)
     | CLifetime a -> "Lifetime:" ^ ostr a
     | CTuple l -> "Tuple[ " ^ String.concat "" (List.map (fun t -> show_ty t ^ " ") l) ^ "]"
+    | CNone -> "NoneCat"
+    | CAnon fs -> "Anon[ " ^ String.concat "" (List.map (fun ((a, n), t) -> Printf.sprintf "{ [ %s] %s %s } " (show_attrs a) (match n with None -> "-" | Some x -> esc (ostr x)) (show_ty t)) fs) ^ "]"
     | CArray (t, len) -> "Array[ " ^ show_ty t ^ " " ^ (match len with None -> "-" | Some (CValue n) -> "V" ^ string_of_int (int_of_nat n) | Some (CNamedC t2) -> "N " ^ show_ty t2) ^ " ]" in
   let w = match wraps with None -> "-" | Some l -> "{ " ^ String.concat "" (List.map (fun t -> show_ty t ^ " ") l) ^ "}" in
   let r = match rt with None -> "-" | Some None -> "&" | Some (Some a) -> "&" ^ ostr a in
@@ -59,8 +63,6 @@ let rec show_tts (l: tt list) : Stdlib.String.t =
   String.concat "" (List.map (function
     | TId s -> "I " ^ ostr s ^ " " | TP c -> "P " ^ char_of_punct c ^ " " | TLit (LNat n) -> "L " ^ string_of_int (int_of_nat n) ^ " " | TLit (LStr x) -> "L " ^ esc ("\"" ^ ostr x ^ "\"") ^ " "
     | TG (d, inner) -> (match d with Paren -> "G( " | Bracket -> "G[ " | Brace -> "G{ ") ^ show_tts inner ^ ") ") l)
-let show_atok = function AId x -> esc (ostr x) | ALit (LStr x) -> esc (ostr x) | ALit (LNat n) -> string_of_int (int_of_nat n)
-let show_attrs (l: atok list list) : Stdlib.String.t = String.concat "" (List.map (fun a -> "( " ^ String.concat "" (List.map (fun t -> show_atok t ^ " ") a) ^ ") ") l)
 let sorted (l: Stdlib.String.t list) : Stdlib.String.t = String.concat "" (List.map (fun x -> x ^ " ") (List.sort compare l))
 let show_generic = function
   | GnConst (n, t, d) -> Printf.sprintf "C( %s %s %s )" (esc (ostr n)) (show_ty t) (match d with None -> "-" | Some (CValue v) -> "V" ^ string_of_int (int_of_nat v) | Some (CNamedC t2) -> "N " ^ show_ty t2)
@@ -102,11 +104,14 @@ let () =
       let (tts, _) = parse_tt toks in
       let fuel = nat_of_int (depth_tt tts + 8) in
       let pd = parse_data nodup nodup fuel tts in
+      let show_enum (e: enumt) = Printf.sprintf "ENUM name=%s attrs=[ %s] generics=[ %s] variants=[ %s]" (esc (ostr e.e_name)) (show_attrs e.e_attrs)
+          (String.concat "" (List.map (fun g -> show_generic g ^ " ") e.e_generics))
+          (String.concat "" (List.map (fun f -> Printf.sprintf "{ [ %s] %s %s } " (show_attrs f.f_attrs) (show_opt_name f.f_name) (show_ty f.f_ty)) e.e_variants)) in
       let r = match pd with
-        | Ok (st, _) -> show_struct st | Panic -> "PANIC" | Unsup -> "UNSUP" | Fuel -> "FUEL" in
+        | Ok (DStruct st, _) -> show_struct st | Ok (DEnum e, _) -> show_enum e | Panic -> "PANIC" | Unsup -> "UNSUP" | Fuel -> "FUEL" in
       Printf.printf "ITEM %s PARSED %s\n" name r;
       (match pd with
-       | Ok (st, _) ->
+       | Ok (DStruct st, _) ->
            Printf.printf "ITEM %s INTERP %s\n" name (show_interp st.s_attrs);
            List.iteri (fun k f -> Printf.printf "ITEM %s FINTERP%d %s\n" name k (show_interp f.f_attrs)) st.s_fields
            ; List.iteri (fun k f -> Printf.printf "ITEM %s FUSED%d lifetimes=[ %s] array_lens=[ %s]\n" name k
